@@ -145,6 +145,7 @@ fn clone_ir(ir: &InterpRun) -> InterpRun {
         trace: ir.trace.clone(),
         helper_log: ir.helper_log.clone(),
         budget_hit: ir.budget_hit,
+        repeat_mismatch: ir.repeat_mismatch.clone(),
     }
 }
 
@@ -162,6 +163,9 @@ pub fn c01_verdict(p: &Pre) -> Option<(String, String)> {
             }
             if !masked_eq(&p.rr.mbuff_after, &p.rr.mbuff_mask, &p.ir.mbuff_after) {
                 return Some(("mbuff-bytes".into(), "metadata buffer bytes differ".into()));
+            }
+            if let Some(m) = &p.ir.repeat_mismatch {
+                return Some(("history-dependence".into(), format!("result depends on an earlier execution: {m}")));
             }
             if p.rr.steps != p.ir.steps || p.rr.pc_hash != p.ir.pc_hash {
                 return Some((
@@ -318,6 +322,7 @@ pub fn compare_engine(p: &Pre, e: &EngineEnd, engine: Engine) -> Result<Option<M
             2 => mm("compile-panic", format!("{} compilation panicked: {}", engine.name(), r.msg)),
             3 => mm("exec-err", format!("{} execution returned Err: {}", engine.name(), r.msg)),
             4 => mm("exec-panic", format!("{} execution panicked: {}", engine.name(), r.msg)),
+            6 => mm("history-dependence", format!("{}: {}", engine.name(), r.msg)),
             _ => Ok(None),
         },
     }
